@@ -567,6 +567,10 @@ func (g *Gen) modifyKind(s *gsession, forced int) {
 			nf.SNDEM = true
 		}
 
+		if g.R.Intn(5) == 0 { // ... or the rule starts dropping / buffering instead
+			nf = pfcpx.FAR{ID: b.dlFAR, Action: []uint8{1, 0x0c, 4}[g.R.Intn(3)], HasFP: true, Dst: "access", SNDEM: nf.SNDEM}
+		}
+
 		if g.R.Intn(3) == 0 { // the flags octet carries other bits as well (DROBU, QAURR, spare)
 			nf.SMReq, nf.SMReqOther = true, []uint8{0x01, 0x04, 0x05, 0x80, 0x85}[g.R.Intn(5)]
 		}
@@ -629,6 +633,15 @@ func (g *Gen) modifyKind(s *gsession, forced int) {
 		}
 
 		b.dl = np
+
+		if g.R.Intn(4) == 0 && b.ul.FTEID == "explicit" {
+			// ... and the uplink PDR moves to another tunnel (new TEID): its match key changes as well
+			nu := b.ul
+			nu.TEID = g.teid()
+			b.ul = nu
+			r.UPDR = append(r.UPDR, nu)
+			g.Stats["mod_updr_newteid"]++
+		}
 
 		if np.UE == "alloc" && g.R.Intn(2) == 0 {
 			// like a control plane that repeats the address it was given in the Created PDR as an ordinary value
